@@ -19,10 +19,12 @@ import (
 // H Header(), T Trailer() (only after a failed receive), X cancel — against a
 // handler program, enumerated through environment choice points.  One driver,
 // several oracles (reported under the property that owns each clause):
-//   C02  what was received is a prefix of what the handler sent; EOF only after everything
-//   C06  the wire automaton (through finishDirect)
-//   C07  operations invoked after the cancel fail with the context's status
-//   C14  after a final cancel and quiescence the connection is back to its idle state
+//
+//	C02  what was received is a prefix of what the handler sent; EOF only after everything
+//	C06  the wire automaton (through finishDirect)
+//	C07  operations invoked after the cancel fail with the context's status
+//	C14  after a final cancel and quiescence the connection is back to its idle state
+//
 // and, for every property, no panic and no operation that never returns.
 func apiSeq(prop, hprog string, first byte, maxLen, bound int) *explore.Scenario {
 	return &explore.Scenario{
